@@ -121,6 +121,7 @@ struct Obj {
 	virtual Obj *from_base() = 0;   /* constructor from the base structure */
 	virtual Obj *cloned() = 0;
 	virtual Obj *fresh() = 0;
+	virtual void assign_from(Obj *src) = 0;   /* operator= of the base structure */
 	virtual void release() = 0;
 	const char *kind;
 };
@@ -133,6 +134,7 @@ struct ObjT : public Obj {
 	Obj *from_base() override { vf_at("layout object(const base *)"); return new ObjT(new L(static_cast<const B *>(p)), kind); }
 	Obj *cloned() override { vf_at("layout object::clone"); return new ObjT(p->clone(), kind); }
 	Obj *fresh() override { return new ObjT(new L, kind); }
+	void assign_from(Obj *src) override { vf_at("base structure operator="); *static_cast<B *>(p) = *static_cast<const B *>(static_cast<ObjT *>(src)->p); }
 	void release() override { vf_at("layout object::unref"); p->unref(); p = 0; delete this; }
 };
 /* layout::graph is an item group, not a plain metatype */
@@ -151,11 +153,11 @@ static Obj *make(int k)
 	}
 }
 struct PN { const char *set, *get; };
-static const PN n_axis[] = { { "title", "title" }, { "begin", "begin" }, { "end", "end" }, { "tlen", "tlen" }, { "exponent", "exponent" }, { "intervals", "intervals" }, { "subtick", "subtick" }, { "decimals", "decimals" }, { "lpos", "lpos" }, { "tpos", "tpos" }, { "exp", "exponent" }, { "dec", "decimals" } };
+static const PN n_axis[] = { { "title", "title" }, { "begin", "begin" }, { "end", "end" }, { "tlen", "tlen" }, { "exponent", "exponent" }, { "intervals", "intervals" }, { "subtick", "subtick" }, { "decimals", "decimals" }, { "lpos", "lpos" }, { "tpos", "tpos" }, { "exp", "exponent" }, { "dec", "decimals" }, { "intv", "intervals" }, { "int", "intervals" }, { "sub", "subtick" } };
 static const PN n_line[] = { { "color", "color" }, { "x1", "x1" }, { "x2", "x2" }, { "y1", "y1" }, { "y2", "y2" }, { "width", "width" }, { "style", "style" }, { "symbol", "symbol" }, { "size", "size" } };
 static const PN n_text[] = { { "color", "color" }, { "size", "size" }, { "align", "align" }, { "angle", "angle" }, { "value", "value" }, { "font", "font" } };
-static const PN n_world[] = { { "color", "color" }, { "cycles", "cycles" }, { "width", "width" }, { "style", "style" }, { "symbol", "symbol" }, { "size", "size" }, { "alias", "alias" }, { "cyc", "cycles" } };
-static const PN n_graph[] = { { "axes", "axes" }, { "worlds", "worlds" }, { "foreground", "foreground" }, { "background", "background" }, { "fg", "foreground" }, { "bg", "background" }, { "lpos", "lpos" } };
+static const PN n_world[] = { { "color", "color" }, { "cycles", "cycles" }, { "width", "width" }, { "style", "style" }, { "symbol", "symbol" }, { "size", "size" }, { "alias", "alias" }, { "cyc", "cycles" }, { "colour", "color" }, { "sym", "symbol" } };
+static const PN n_graph[] = { { "axes", "axes" }, { "worlds", "worlds" }, { "foreground", "foreground" }, { "background", "background" }, { "fg", "foreground" }, { "bg", "background" }, { "lpos", "lpos" }, { "pos", "pos" }, { "position", "pos" }, { "scale", "scale" }, { "clip", "clip" }, { "clipping", "clip" }, { "align", "align" }, { "alignment", "align" }, { "gridtype", "grid" } };
 static const struct { const PN *n; int cnt; } names[NKinds] = {
 	{ n_axis, sizeof(n_axis) / sizeof(PN) }, { n_line, sizeof(n_line) / sizeof(PN) }, { n_text, sizeof(n_text) / sizeof(PN) }, { n_world, sizeof(n_world) / sizeof(PN) }, { n_graph, sizeof(n_graph) / sizeof(PN) }
 };
@@ -189,6 +191,31 @@ static void same(const Snap &a, const Snap &b, int skip, const char *key, const 
 		vf_count("monitor:properties-compared", 1);
 	}
 }
+
+/* aliases the setters accept but the getters do not resolve (finding in notes/C20.md) */
+static bool readable_spelling(const char *name)
+{
+	static const char *no[] = { "labelpos", "label position", "titlepos", "title position", "fg", "bg", "type" };
+	for (auto n : no) if (!strcasecmp(n, name)) return false;
+	return true;
+}
+/* property(name) has to answer the listed property `want` */
+static void check_read(Obj *o, const char *name, const PV &want, const std::string &ctx)
+{
+	mpt::property pr(name);
+	vf_at("object::property");
+	int ret = o->obj().property(&pr);
+	VF_CHECK(ret >= 0, "cxx:get:accepted-name-unreadable", "%s: property(\"%s\") returns %d, the setter accepts this spelling for '%s'", ctx.c_str(), name, ret, want.name.c_str());
+	VF_CHECK(pr.name && want.name == pr.name, "cxx:get:wrong-property", "%s: property(\"%s\") answers '%s', the setter changes '%s'", ctx.c_str(), name, pr.name ? pr.name : "(null)", want.name.c_str());
+	const void *addr = pr.val.data();
+	if (want.isstr) {
+		const char *str = (pr.val.type() == 's' && addr) ? *static_cast<const char * const *>(addr) : 0;
+		VF_CHECK(pr.val.type() == 's' && std::string(str ? str : "") == (want.hasstr ? want.str : std::string()), "cxx:get:wrong-property", "%s: property(\"%s\") reads another string than the listing by index (%s)", ctx.c_str(), name, want.show().c_str());
+	} else {
+		VF_CHECK((int) pr.val.type() == want.type && addr && !memcmp(addr, want.bytes.data(), want.bytes.size()), "cxx:get:wrong-property", "%s: property(\"%s\") reads another value than the listing by index (%s)", ctx.c_str(), name, want.show().c_str());
+	}
+	vf_count("monitor:read-by-spelling", 1);
+}
 static void set_text(Obj *o, int k, vf_rng *r, std::string &desc)
 {
 	const PN &pn = names[k].n[vf_below(r, names[k].cnt)];
@@ -202,10 +229,26 @@ static void set_text(Obj *o, int k, vf_rng *r, std::string &desc)
 	std::string ctx = std::string(o->kind) + "::set(\"" + pn.set + "\", \"" + std::string(txt).substr(0, 40) + "\")";
 	vf_log("%s", ctx.c_str());
 	vf_fp(pn.set, strlen(pn.set)); vf_fp(txt, strlen(txt));
+	/* obj[name] = text on a twin object has to do what set(name, text) does */
+	Obj *twin = 0;
+	/* graph 'grid' cannot be set under its listed name (finding in notes/C20.md), which is what obj[name] = uses */
+	if (readable_spelling(pn.set) && strcmp(pn.get, "grid")) twin = o->cloned();
 	vf_at("object::set");
 	bool ok = o->obj().set(pn.set, txt, 0);
 	vf_count("object::set", 1);
 	Snap after = snap(o->obj(), o->kind);
+	if (twin) {
+		vf_at("object::attribute::operator=");
+		twin->obj()[pn.set] = txt;
+		vf_count("object::operator[]=", 1);
+		same(after, snap(twin->obj(), twin->kind), -1, "cxx:attribute:assign-differs-from-set", ctx + " vs obj[name] = text");
+		twin->release();
+	}
+	if (readable_spelling(pn.set)) {
+		/* read through the spelling used and through the listed name */
+		check_read(o, pn.set, after[t], ctx);
+		check_read(o, pn.get, after[t], ctx);
+	}
 	desc += std::string(" ") + pn.set + "=\"" + std::string(txt).substr(0, 16) + (ok ? "\"" : "\"!");
 	if (!ok) {
 		same(before, after, -1, "cxx:set:refused-modified", ctx);
@@ -296,6 +339,102 @@ static void case_objects(vf_rng *r)
 	vf_nontrivial();
 	vf_sample("%s", desc.substr(0, 900).c_str());
 }
+
+/* ------------------------------------------------------ assignment grid */
+/*
+ * Source and target of a kind in every combination of set / unset string
+ * properties (plus differing scalar content), assignment by every route:
+ * the target has to equal the source property by property afterwards, own
+ * its strings, and the source is unchanged.
+ */
+static const char *string_props(int k, int i)
+{
+	static const char *sp[NKinds][2] = { { "title", 0 }, { 0, 0 }, { "value", "font" }, { "alias", 0 }, { "axes", "worlds" } };
+	return sp[k][i];
+}
+static const char *other_props(int k, int i)
+{
+	static const char *op[NKinds][2] = { { "begin", "exponent" }, { "x1", "width" }, { "size", "angle" }, { "cycles", "width" }, { "lpos", "foreground" } };
+	return op[k][i];
+}
+static void populate(Obj *o, int k, unsigned mask, int variant)
+{
+	static const char *texts[2][2] = { { "first text", "second" }, { "another, considerably longer text that needs its own allocation", "x" } };
+	static const char *nums[2][2] = { { "2", "3" }, { "4", "1" } };
+	for (int i = 0; i < 2; i++) {
+		const char *n = string_props(k, i);
+		if (!n) continue;
+		if (mask & (1u << i)) VF_CHECK(o->obj().set(n, texts[variant][i], 0), "cxx:set:refused", "%s::set(\"%s\", text) refused", o->kind, n);
+		else o->obj().set_property(n, 0);
+	}
+	for (int i = 0; i < 2; i++) {
+		const char *n = other_props(k, i);
+		if (k == KGraph && i == 1) o->obj().set(n, variant ? "red" : "blue", 0);
+		else if (k == KGraph) o->obj().set(n, variant ? "r" : "l", 0);
+		else o->obj().set(n, nums[variant][i], 0);
+	}
+}
+#define NROUTES 6
+static uint64_t assign_count() { return (uint64_t) NKinds * NROUTES * 16; }
+static void case_assign(uint64_t idx)
+{
+	static const char *route_name[NROUTES] = { "operator=", "constructor(base *)", "clone()", "set_property(\"\", object)", "set_property(NULL, object)", "operator= (self)" };
+	unsigned tmask = idx % 4, smask = (idx / 4) % 4;
+	int route = (int) ((idx / 16) % NROUTES), k = (int) (idx / 16 / NROUTES);
+	Obj *src = make(k), *dst = 0;
+	char what[200];
+	populate(src, k, smask, 0);
+	snprintf(what, sizeof(what), "%s: %s, source strings %u%u, target strings %u%u", src->kind, route_name[route], smask & 1, (smask >> 1) & 1, tmask & 1, (tmask >> 1) & 1);
+	std::string ctx = what;
+	vf_log("%s", what);
+	vf_fp_u64(0xa551); vf_fp_u64(idx);
+	vf_nontrivial();
+	Snap s0 = snap(src->obj(), src->kind);
+	bool done = true;
+	switch (route) {
+	case 0:
+		dst = make(k); populate(dst, k, tmask, 1);
+		dst->assign_from(src);
+		break;
+	case 1: dst = src->from_base(); break;
+	case 2: dst = src->cloned(); break;
+	case 3: case 4: {
+		dst = make(k); populate(dst, k, tmask, 1);
+		vf_at("object::set_property");
+		int ret = dst->obj().set_property(route == 3 ? "" : 0, &src->conv());
+		if (ret < 0) { done = false; vf_count("assign:refused", 1); }   /* layout::line with "": see notes */
+		break; }
+	default:
+		dst = make(k); populate(dst, k, smask, 0);
+		dst->assign_from(dst);
+		break;
+	}
+	vf_count("assign:routes", 1);
+	if (done && route == 5) {
+		/* a = a keeps the object */
+		Snap d = snap(dst->obj(), dst->kind);
+		bool eq = d.size() == s0.size();
+		for (size_t i = 0; eq && i < d.size(); i++) eq = d[i] == s0[i];
+		if (!eq && !vf_known("cxx:assign:self-assignment")) same(s0, d, -1, "cxx:assign:self-assignment", ctx);
+		vf_count("monitor:assignments-compared", 1);
+	}
+	else if (done) {
+		Snap d = snap(dst->obj(), dst->kind), s1 = snap(src->obj(), src->kind);
+		same(s0, s1, -1, "cxx:assign:source-changed", ctx);
+		same(s0, d, -1, "cxx:assign:unequal", ctx);
+		if (dst != src && route != 5) for (size_t i = 0; i < d.size(); i++) {
+			if (d[i].isstr && d[i].addr && d[i].name != "clip" && d[i].name != "intervals") VF_CHECK(d[i].addr != s1[i].addr, "cxx:assign:string-shared", "%s: '%s' of target and source are one allocation", what, d[i].name.c_str());
+		}
+		vf_count("monitor:assignments-compared", 1);
+		/* independent afterwards */
+		populate(dst, k, ~smask & 3, 1);
+		same(s0, snap(src->obj(), src->kind), -1, "cxx:assign:source-follows-target", ctx);
+	}
+	dst->release();
+	same(s0, snap(src->obj(), src->kind), -1, "cxx:assign:source-follows-target", ctx);
+	src->release();
+	vf_sample("%s", what);
+}
 /* colour: print -> parse */
 static void case_color(uint64_t idx, vf_rng *r)
 {
@@ -334,9 +473,11 @@ static void case_color(uint64_t idx, vf_rng *r)
 
 static uint64_t n_obj() { return vf_thorough ? 200000 : 10000; }
 static uint64_t n_col() { return vf_thorough ? 500000 : 20000; }
-extern "C" uint64_t vf_cases(void) { return n_obj() + n_col(); }
+extern "C" uint64_t vf_cases(void) { return n_obj() + n_col() + assign_count(); }
 extern "C" void vf_case(uint64_t idx, vf_rng *r)
 {
 	if (idx < n_obj()) { case_objects(r); return; }
-	case_color(idx - n_obj(), r);
+	idx -= n_obj();
+	if (idx < n_col()) { case_color(idx, r); return; }
+	case_assign(idx - n_col());
 }
